@@ -400,3 +400,484 @@ func ruleTriggerListUnfiltered(c *Ctx) {
 	c.Floor(rule, s.Name, "per-file loops that feed the trigger dispatcher", n, 1)
 	_ = fmt.Sprint
 }
+
+// dependsOnLoopElem: e depends (through definitions inside the loop body) on the loop's element
+// variable / index; a map lookup in a container declared outside the loop does NOT count even if
+// its key depends on the element (that is a shared memo).
+func dependsOnLoopElem(info *types.Info, li *loopInfo, e ast.Expr, depth int, seen map[types.Object]bool) (dep bool, viaOuterMap ast.Node) {
+	if depth > 6 || e == nil {
+		return false, nil
+	}
+	e = unparen(e)
+	if ix, ok := e.(*ast.IndexExpr); ok {
+		if t := info.TypeOf(ix.X); t != nil {
+			if _, isMap := t.Underlying().(*types.Map); isMap {
+				if o := identObj(info, ix.X); o != nil && (o.Pos() < li.Body.Pos() || o.Pos() > li.Body.End()) {
+					return false, ix
+				}
+			}
+		}
+	}
+	walkAll(e, func(m ast.Node) bool {
+		if dep || viaOuterMap != nil {
+			return false
+		}
+		switch x := m.(type) {
+		case *ast.IndexExpr:
+			if x != e {
+				d, via := dependsOnLoopElem(info, li, x, depth+1, seen)
+				dep = dep || d
+				if via != nil {
+					viaOuterMap = via
+				}
+				return false
+			}
+		case *ast.Ident:
+			o := objOf(info, x)
+			if o == nil || seen[o] {
+				return true
+			}
+			if li.Elems[o] || o == li.Index {
+				dep = true
+				return false
+			}
+			if _, isVar := o.(*types.Var); !isVar {
+				return true
+			}
+			seen[o] = true
+			// definitions inside the loop body
+			walkAll(li.Body, func(d ast.Node) bool {
+				if as, ok := d.(*ast.AssignStmt); ok {
+					for i, l := range as.Lhs {
+						if identObj(info, l) != o {
+							continue
+						}
+						var rhs ast.Expr
+						if len(as.Rhs) == len(as.Lhs) {
+							rhs = as.Rhs[i]
+						} else if len(as.Rhs) == 1 {
+							rhs = as.Rhs[0]
+						}
+						d2, via := dependsOnLoopElem(info, li, rhs, depth+1, seen)
+						dep = dep || d2
+						if via != nil {
+							viaOuterMap = via
+						}
+					}
+				}
+				return true
+			})
+		}
+		return true
+	})
+	return dep, viaOuterMap
+}
+
+// R13.7 — every bucket of a query is described by its own file header: in
+// ParseResult.GetDataShapes (and GetRowLen / GetRowType) the value stored under a bucket's key is
+// computed from that same qualified file — never taken from a container that is shared between
+// the iterations (one shape vector per "record format"). Buckets that share timeframe and
+// attribute group may have different columns; decoding one with another's layout swaps values
+// between columns without any error.
+func ruleShapesFromOwnFile(c *Ctx) {
+	const rule = "R13.7"
+	n := 0
+	for _, key := range []string{"(*planner.ParseResult).GetDataShapes", "(*planner.ParseResult).GetRowLen", "(*planner.ParseResult).GetRowType"} {
+		if c.P.Funcs[key] == nil {
+			continue
+		}
+		s := c.S(rule, key)
+		if s == nil {
+			continue
+		}
+		info := s.Info
+		s.walk(func(m ast.Node) bool {
+			li := asLoop(info, m)
+			if li == nil {
+				return true
+			}
+			walkAll(li.Body, func(k ast.Node) bool {
+				as, ok := k.(*ast.AssignStmt)
+				if !ok || len(as.Lhs) != 1 || len(as.Rhs) != 1 {
+					return true
+				}
+				ix, ok := unparen(as.Lhs[0]).(*ast.IndexExpr)
+				if !ok {
+					return true
+				}
+				if t := info.TypeOf(ix.X); t == nil {
+					return true
+				} else if _, isMap := t.Underlying().(*types.Map); !isMap {
+					return true
+				}
+				// result maps only: the container is a named result or returned
+				mo := identObj(info, ix.X)
+				if mo == nil || (mo.Pos() > li.Body.Pos() && mo.Pos() < li.Body.End()) {
+					return true
+				}
+				isResult := false
+				sig := s.Fn.Obj.Type().(*types.Signature)
+				for i := 0; i < sig.Results().Len(); i++ {
+					if sig.Results().At(i) == mo {
+						isResult = true
+					}
+				}
+				walkAll(s.Body, func(r ast.Node) bool {
+					if rs, ok := r.(*ast.ReturnStmt); ok {
+						for _, e := range rs.Results {
+							if identObj(info, e) == mo {
+								isResult = true
+							}
+						}
+					}
+					return true
+				})
+				if !isResult {
+					return true
+				}
+				n++
+				dep, via := dependsOnLoopElem(info, li, as.Rhs[0], 0, map[types.Object]bool{})
+				okv := dep && via == nil
+				why := "computed from the iteration's own qualified file"
+				if via != nil {
+					why = "taken from " + types.ExprString(via.(ast.Expr)) + ", a container shared between the iterations"
+				} else if !dep {
+					why = "does not depend on the iteration's file"
+				}
+				c.Check(okv, rule, s.Name, "per-bucket-value-from-own-file", c.P.Pos(as.Pos()),
+					"the value stored for a bucket key is "+why+" (every bucket has its own header; two buckets of one timeframe/attribute group can have different columns)")
+				return true
+			})
+			return true
+		})
+	}
+	c.Floor(rule, "planner.ParseResult", "per-bucket entries of the result maps", n, 2)
+}
+
+// R33.6 — a CSV integer is parsed with the width of its column: in the loader, the bitSize given
+// to strconv.ParseInt / ParseUint is not larger than the integer type its result is converted
+// to. Parsing with 64 bits and casting to int8/int16/int32 accepts out-of-range fields and stores
+// the wrapped-around value while the import reports success.
+func ruleParseWidthMatchesColumn(c *Ctx) {
+	const rule = "R33.6"
+	n := 0
+	for _, fn := range c.P.NonTestFuncs() {
+		if !strings.HasPrefix(fn.PkgShort(), "cmd/connect/loader") || fn.Decl.Body == nil {
+			continue
+		}
+		info := fn.Pkg.TypesInfo
+		sizes := fn.Pkg.TypesSizes
+		walkAll(fn.Decl.Body, func(m ast.Node) bool {
+			as, ok := m.(*ast.AssignStmt)
+			if !ok || len(as.Rhs) != 1 || len(as.Lhs) != 2 {
+				return true
+			}
+			cx, ok := unparen(as.Rhs[0]).(*ast.CallExpr)
+			if !ok || len(cx.Args) != 3 {
+				return true
+			}
+			nm := CalleeName(info, cx)
+			if nm != "strconv.ParseInt" && nm != "strconv.ParseUint" {
+				return true
+			}
+			bits, isConst := constInt(info, cx.Args[2])
+			val := identObj(info, as.Lhs[0])
+			if val == nil {
+				return true // stored directly into a 64-bit element
+			}
+			// conversions of val in this function
+			walkAll(fn.Decl.Body, func(k ast.Node) bool {
+				conv, ok := k.(*ast.CallExpr)
+				if !ok || len(conv.Args) != 1 || identObj(info, conv.Args[0]) != val {
+					return true
+				}
+				tv, isT := info.Types[conv.Fun]
+				if !isT || !tv.IsType() {
+					return true
+				}
+				n++
+				var width int64 = -1
+				switch t := tv.Type.(type) {
+				case *types.TypeParam:
+					// the narrowest type of the constraint's type set
+					if iface, ok := t.Constraint().Underlying().(*types.Interface); ok {
+						for i := 0; i < iface.NumEmbeddeds(); i++ {
+							if u, ok := iface.EmbeddedType(i).(*types.Union); ok {
+								for j := 0; j < u.Len(); j++ {
+									if b, ok := u.Term(j).Type().Underlying().(*types.Basic); ok && b.Info()&types.IsInteger != 0 {
+										w := sizes.Sizeof(b) * 8
+										if width < 0 || w < width {
+											width = w
+										}
+									}
+								}
+							}
+						}
+					}
+				default:
+					if b, ok := tv.Type.Underlying().(*types.Basic); ok && b.Info()&types.IsInteger != 0 {
+						width = sizes.Sizeof(b) * 8
+					}
+				}
+				if width < 0 {
+					return true
+				}
+				okW := isConst && bits > 0 && bits <= width
+				c.Check(okW, rule, fn.Key, fmt.Sprintf("parse-width<=column-width:%s", types.ExprString(conv.Fun)), c.P.Pos(conv.Pos()),
+					fmt.Sprintf("%s(…, bitSize=%s) is converted to a %d-bit integer: the parse must reject what the column cannot hold (bitSize ≤ %d)", shortCallee(nm), types.ExprString(cx.Args[2]), width, width))
+				return true
+			})
+			return true
+		})
+	}
+	c.Floor(rule, "cmd/connect/loader", "narrowing conversions of parsed integers", n, 4)
+}
+
+// R18.10 — a write command is queued only when it is complete: in WriteRecords, after
+// QueueWriteCommand(x) no field of x is assigned until x is bound to a new command. The WAL
+// goroutine may take a queued command at any moment; a command that is still being filled is
+// serialized with the rows appended so far and the rest are lost (and the access is a data race).
+func ruleQueuedCommandImmutable(c *Ctx) {
+	const rule = "R18.10"
+	s := c.S(rule, fnWriteRecords)
+	if s == nil {
+		return
+	}
+	info := s.Info
+	n := 0
+	for _, site := range s.sites(callPred(s, fnQueueWriteCommand)) {
+		call := site.(*ast.CallExpr)
+		if len(call.Args) != 1 {
+			continue
+		}
+		x := identObj(info, call.Args[0])
+		if x == nil {
+			continue
+		}
+		n++
+		r := s.Run(Query{
+			Start: func(sub, _ ast.Node) bool { return sub == ast.Node(call) },
+			Target: func(sub, _ ast.Node) bool {
+				as, ok := sub.(*ast.AssignStmt)
+				if !ok {
+					return false
+				}
+				for _, l := range as.Lhs {
+					if sel, ok := unparen(l).(*ast.SelectorExpr); ok && identObj(info, sel.X) == x {
+						return true
+					}
+				}
+				return false
+			},
+			Barrier: func(sub, _ ast.Node) bool {
+				as, ok := sub.(*ast.AssignStmt)
+				if !ok {
+					return false
+				}
+				for _, l := range as.Lhs {
+					if identObj(info, l) == x {
+						return true
+					}
+				}
+				return false
+			},
+		})
+		c.reportHits(rule, s, "no-field-write-after-queueing", r,
+			"after a command was queued its fields are not written until the variable is bound to a new command",
+			"a command that was already handed to the WAL queue is still modified: a flush that takes it in between logs and applies only part of the rows of the interval (and races with the writer)")
+	}
+	c.Floor(rule, s.Name, "QueueWriteCommand call sites", n, 2)
+}
+
+// R6.6 — what a WAL record reader hands back drives the replay tables only after its error was
+// tested nil. readTGData / readTransactionInfo return zero values together with a non-stop error
+// (garbage length, bad checksum, invalid field); fullRead only stops the scan on EOF and short
+// reads, so a result used without the nil-error edge is recorded under TG ID 0: the second
+// damaged record in one log is then a "duplicate" of the first, Replay gives the whole log up
+// and every intact committed transaction group before the damage is dropped. An edge on which a
+// result is compared equal to a constant that no error return of the reader can yield (the
+// `case CHECKPOINT:` of the destination switch) is as good as the nil-error edge.
+// The replay tables are the local maps of Replay that are read somewhere (write-only
+// bookkeeping maps are not state).
+func ruleReplayRecordResultsAfterErrTest(c *Ctx) {
+	const rule = "R6.6"
+	s := c.S(rule, fnReplay)
+	if s == nil {
+		return
+	}
+	info := s.Info
+	// live tables
+	written, read := map[types.Object]bool{}, map[types.Object]bool{}
+	lhsIdx := map[ast.Node]bool{}
+	s.walk(func(m ast.Node) bool {
+		if as, ok := m.(*ast.AssignStmt); ok {
+			for _, l := range as.Lhs {
+				if ix, ok := unparen(l).(*ast.IndexExpr); ok {
+					lhsIdx[ix] = true
+				}
+			}
+		}
+		return true
+	})
+	isMap := func(o types.Object) bool {
+		if o == nil {
+			return false
+		}
+		_, ok := o.Type().Underlying().(*types.Map)
+		return ok
+	}
+	s.walk(func(m ast.Node) bool {
+		switch x := m.(type) {
+		case *ast.IndexExpr:
+			if o := identObj(info, x.X); isMap(o) {
+				if lhsIdx[x] {
+					written[o] = true
+				} else {
+					read[o] = true
+				}
+			}
+		case *ast.RangeStmt:
+			if o := identObj(info, x.X); isMap(o) {
+				read[o] = true
+			}
+		}
+		return true
+	})
+	tables := 0
+	for o := range read {
+		if written[o] {
+			tables++
+		}
+	}
+	c.Floor(rule, s.Name, "replay tables (local maps written in the scan and read again)", tables, 2)
+	isTable := func(e ast.Expr) bool { o := identObj(info, e); return o != nil && read[o] && written[o] }
+
+	nSites := 0
+	for _, reader := range []string{fnReadTGData, fnReadTxnInfo} {
+		rf := c.F(rule, reader)
+		if rf == nil {
+			continue
+		}
+		errConst := errorReturnConstants(rf)
+		for _, site := range s.sites(callPred(s, reader)) {
+			call := site.(*ast.CallExpr)
+			var objs []types.Object
+			s.walk(func(m ast.Node) bool {
+				if as, ok := m.(*ast.AssignStmt); ok && len(as.Rhs) == 1 && unparen(as.Rhs[0]) == ast.Expr(call) && len(as.Lhs) >= 2 {
+					for _, l := range as.Lhs[:len(as.Lhs)-1] {
+						objs = append(objs, identObj(info, l)) // nil for _
+					}
+				}
+				return true
+			})
+			if len(objs) == 0 {
+				c.Undecided(rule, s.Name, "reader-results-bound:"+shortCallee(reader), "the results of "+reader+" are not bound by a plain assignment: the rule cannot follow them")
+				continue
+			}
+			nSites++
+			any := func(n ast.Node) bool {
+				for _, o := range objs {
+					if o != nil && mentions(info, n, o) {
+						return true
+					}
+				}
+				return false
+			}
+			use := func(sub, _ ast.Node) bool {
+				switch x := sub.(type) {
+				case *ast.IndexExpr:
+					return isTable(x.X) && any(x.Index)
+				case *ast.AssignStmt:
+					for i, l := range x.Lhs {
+						if ix, ok := unparen(l).(*ast.IndexExpr); ok && isTable(ix.X) {
+							if len(x.Rhs) == len(x.Lhs) && any(x.Rhs[i]) {
+								return true
+							}
+						}
+					}
+				}
+				return false
+			}
+			impossibleOnError := func(facts []Fact) bool {
+				for _, f := range facts {
+					if !f.Val || f.Whole {
+						continue
+					}
+					var subj, k ast.Expr
+					if f.Tag != nil {
+						subj, k = f.Tag, f.Expr
+					} else if b, ok := unparen(f.Expr).(*ast.BinaryExpr); ok && b.Op == token.EQL {
+						subj, k = b.X, b.Y
+						if identObj(info, subj) == nil {
+							subj, k = b.Y, b.X
+						}
+					}
+					if subj == nil {
+						continue
+					}
+					so := identObj(info, subj)
+					tv, ok := info.Types[k]
+					if so == nil || !ok || tv.Value == nil {
+						continue
+					}
+					for i, o := range objs {
+						if o != nil && canonObject(o) == canonObject(so) && i < len(errConst) && errConst[i] != nil && !errConst[i][tv.Value.ExactString()] {
+							return true
+						}
+					}
+				}
+				return false
+			}
+			r := s.Run(Query{Target: use, Barrier: func(sub, _ ast.Node) bool { return sub == ast.Node(call) }, NeedOK: true, Exempt: impossibleOnError})
+			c.reportHits(rule, s, "record-results-reach-replay-tables-after-error-test:"+shortCallee(reader), r,
+				"the replay tables are keyed/filled from the record only on the edge where the reader's error was tested nil (or on a branch no error return of the reader can take)",
+				"a replay table is keyed/filled from the results of "+shortCallee(reader)+" although its error was not tested nil: a damaged record (garbage length, bad checksum) is recorded under the zero TG ID, the next one is a 'duplicate', Replay gives the log up and the intact committed transaction groups before the damage are dropped")
+		}
+	}
+	c.Floor(rule, s.Name, "record reader call sites in the scan", nSites, 2)
+}
+
+// errorReturnConstants lists, per non-error result of fn, the constant values it takes on the
+// returns whose error is not the literal nil; nil for a result that is not constant on all of them.
+func errorReturnConstants(fn *Func) []map[string]bool {
+	info := fn.Pkg.TypesInfo
+	sig, _ := info.ObjectOf(fn.Decl.Name).Type().(*types.Signature)
+	if sig == nil || sig.Results().Len() < 2 {
+		return nil
+	}
+	n := sig.Results().Len() - 1
+	out := make([]map[string]bool, n)
+	for i := range out {
+		out[i] = map[string]bool{}
+	}
+	walkAll(fn.Decl.Body, func(m ast.Node) bool {
+		if _, ok := m.(*ast.FuncLit); ok {
+			return false
+		}
+		rs, ok := m.(*ast.ReturnStmt)
+		if !ok {
+			return true
+		}
+		if len(rs.Results) != n+1 {
+			for i := range out {
+				out[i] = nil
+			}
+			return true
+		}
+		if id, ok := unparen(rs.Results[n]).(*ast.Ident); ok && id.Name == "nil" {
+			return true
+		}
+		for i := 0; i < n; i++ {
+			if out[i] == nil {
+				continue
+			}
+			if tv, ok := info.Types[rs.Results[i]]; ok && tv.Value != nil {
+				out[i][tv.Value.ExactString()] = true
+			} else {
+				out[i] = nil
+			}
+		}
+		return true
+	})
+	return out
+}
